@@ -2,5 +2,6 @@
 //! See /verif/DESIGN.md.
 
 pub mod cards;
+pub mod hand5;
 pub mod runner;
 pub mod props;
